@@ -174,9 +174,8 @@ def finish(res, tier, seed, level, t0, rule, assumptions, exhaustive=False, extr
             seen.add(key)
             if len(seen) > 25:
                 break
-            name = "%s-%s-%s-%s-%s" % (sig.get("module"), sig.get("ty"), sig.get("a"), sig.get("syn"), sig.get("reason"))
-            if sig.get("style"):
-                name += "-" + sig["style"]
+            name = "-".join(str(sig[k]) for k in ("module", "ty", "a", "op", "kind", "tagging", "fault", "family", "syn", "reason", "style")
+                            if sig.get(k) is not None)
             path = lib.write_replay(res.prop, name.replace("/", "_"), payload)
             print("VIOLATION property=%s replay=%s" % (res.prop, path))
             log("  ", json.dumps(sig))
@@ -492,11 +491,11 @@ def check_C11(tier, seed):
     byid = {s["id"]: s for s in scns}
     evid = {e["id"]: e for e in evs}
     for s in scns:
-        res.distinct.add(json.dumps(s["mod"]["defs"][-1], sort_keys=True) + s["mod"]["tagging"] + s["fault"])
+        res.distinct.add(json.dumps(s["mod"]["defs"][0], sort_keys=True) + s["mod"]["tagging"] + s["fault"])
     res.samples.append({"module_text": Module(scns[len(scns) // 2]["mod"]).text(), "legal": scns[len(scns) // 2]["legal"], "event": evid[scns[len(scns) // 2]["id"]]})
     for m in mism:
         s = byid[m["id"]]
-        top = s["mod"]["defs"][-1]["t"]
+        top = s["mod"]["defs"][0]["t"]
         sig = {"op": "asn1c", "kind": top["k"], "tagging": s["mod"]["tagging"], "fault": s["fault"], "reason": m["reason"]}
         f = None
         for kf in known:
